@@ -1000,7 +1000,80 @@ static void sec_single(vf::Ctx& c) { g_thorough = c.thorough; Scenario s; gen_si
 static void sec_random(vf::Ctx& c) { g_thorough = c.thorough; Scenario s; gen_random_sequence(c.rng, s); run_scenario(c, s); }
 static void sec_permuted(vf::Ctx& c) { g_thorough = c.thorough; Scenario s; gen_single_deviation(c.rng, s, true); run_scenario(c, s); }
 
+// ---------------------------------------------------------------- cross-type integer parameters (complete lattice)
+// An expectation and an actual call may pass one parameter through different integer types; the verdict
+// must follow the mathematical value (C09 decides equality, this section decides that the *matching* uses it:
+// which expectation is consumed, which value is returned, whether the scenario passes).
+enum XT { X_INT, X_UINT, X_LONG, X_ULONG, X_LL, X_ULL, X_N };
+static const char* XT_NAME[] = { "int", "unsigned int", "long int", "unsigned long int", "long long int", "unsigned long long int" };
+typedef __int128 xi128;
+static bool x_fits(int t, xi128 v) {
+    switch (t) { case X_INT: return v >= INT_MIN && v <= INT_MAX; case X_UINT: return v >= 0 && v <= UINT_MAX; case X_LONG: case X_LL: return v >= LLONG_MIN && v <= LLONG_MAX; default: return v >= 0 && v <= (xi128) ULLONG_MAX; }
+}
+static std::vector<xi128> x_lattice() {
+    std::vector<xi128> v; xi128 one = 1;
+    xi128 pts[] = { -(one << 63), -(one << 32), -(one << 31), 0, (one << 31), (one << 32), (one << 63), (one << 64) };
+    for (xi128 p : pts) for (int d = -1; d <= 1; d++) v.push_back(p + d);
+    v.push_back(7);
+    return v;
+}
+static std::string x_str(xi128 v) { if (v == 0) return "0"; bool neg = v < 0; unsigned __int128 u = neg ? (unsigned __int128) (-(v + 1)) + 1 : (unsigned __int128) v; std::string s; while (u) { s += (char) ('0' + (int) (u % 10)); u /= 10; } if (neg) s += '-'; std::reverse(s.begin(), s.end()); return s; }
+static void x_expect(MockExpectedCall& e, int t, xi128 v) {
+    switch (t) { case X_INT: e.withParameter("p", (int) v); break; case X_UINT: e.withParameter("p", (unsigned int) v); break; case X_LONG: e.withParameter("p", (long) v); break;
+                 case X_ULONG: e.withParameter("p", (unsigned long) v); break; case X_LL: e.withParameter("p", (long long) v); break; default: e.withParameter("p", (unsigned long long) v); }
+}
+static void x_actual(MockActualCall& a, int t, xi128 v) {
+    switch (t) { case X_INT: a.withParameter("p", (int) v); break; case X_UINT: a.withParameter("p", (unsigned int) v); break; case X_LONG: a.withParameter("p", (long) v); break;
+                 case X_ULONG: a.withParameter("p", (unsigned long) v); break; case X_LL: a.withParameter("p", (long long) v); break; default: a.withParameter("p", (unsigned long long) v); }
+}
+static int g_xte, g_xta; static xi128 g_xve1, g_xve2, g_xva; static int g_xret; static bool g_xret_valid;
+static void x_body() {
+    g_xret_valid = false;
+    MockExpectedCall& e1 = mock().expectOneCall("xf"); x_expect(e1, g_xte, g_xve1); e1.andReturnValue(101);
+    MockExpectedCall& e2 = mock().expectOneCall("xf"); x_expect(e2, g_xte, g_xve2); e2.andReturnValue(202);
+    MockActualCall& a = mock().actualCall("xf"); x_actual(a, g_xta, g_xva);
+    g_xret = a.returnIntValueOrDefault(-1); g_xret_valid = true;
+    mock().clear();      // unfulfilled second expectation is not what this section judges
+}
+struct XCase { int te, ta; xi128 ve1, ve2, va; };
+static std::vector<XCase> g_xcases;
+static void init_xcases() {
+    std::vector<xi128> L = x_lattice();
+    for (int te = 0; te < X_N; te++) for (int ta = 0; ta < X_N; ta++) {
+        if (te == ta) continue;
+        for (xi128 va : L) {
+            if (!x_fits(ta, va)) continue;
+            // expectation 1: the value that has the same low 32/64 bits in the expectation's type but is a different number (if any);
+            // expectation 2: the same mathematical value (if representable)
+            uint64_t raw = (uint64_t) va; xi128 alias;
+            switch (te) { case X_INT: alias = (int) raw; break; case X_UINT: alias = (unsigned) raw; break; case X_LONG: case X_LL: alias = (long long) raw; break; default: alias = (xi128) (unsigned long long) raw; }
+            xi128 same = x_fits(te, va) ? va : alias;
+            if (alias == va) alias = x_fits(te, va + 1) ? va + 1 : va - 1;      // no aliasing candidate: use a neighbour
+            if (!x_fits(te, alias)) continue;
+            g_xcases.push_back(XCase{ te, ta, alias, same, va });
+        }
+    }
+}
+static void sec_crosstype(vf::Ctx& c) {
+    const XCase& x = g_xcases[c.idx];
+    g_xte = x.te; g_xta = x.ta; g_xve1 = x.ve1; g_xve2 = x.ve2; g_xva = x.va;
+    c.begin([=] { return vf::J().k("expected_type", XT_NAME[x.te]).k("expectation_1", x_str(x.ve1)).k("expectation_2", x_str(x.ve2)).k("actual_type", XT_NAME[x.ta]).k("actual", x_str(x.va)).str(); });
+    int want = x.va == x.ve1 ? 101 : x.va == x.ve2 ? 202 : 0;     // 0: no expectation carries this value -> the call must fail the test
+    TestTestingFixture fx;
+    fx.setTestFunction(x_body);
+    fx.runAllTests();
+    bool failed = fx.getFailureCount() > 0;
+    std::string tp = std::string(XT_NAME[x.te]) + "<-" + XT_NAME[x.ta];
+    if (want == 0) { if (!failed) c.violation("cross-type-integer:accepted-different-value:" + tp, "actual " + x_str(x.va) + " matched an expectation of " + x_str(x.ve1) + " / " + x_str(x.ve2) + " and returned " + std::to_string(g_xret)); }
+    else if (failed) c.violation("cross-type-integer:rejected-equal-value:" + tp, "actual " + x_str(x.va) + " equals an expected value but the call failed: " + std::string(fx.getOutput().asCharString()).substr(0, 300));
+    else if (!g_xret_valid || g_xret != want) c.violation("cross-type-integer:consumed-wrong-expectation:" + tp, "actual " + x_str(x.va) + " returned " + std::to_string(g_xret) + ", the expectation with the equal value returns " + std::to_string(want));
+    c.count(want ? "cross_type_calls_that_must_match" : "cross_type_calls_that_must_fail");
+    mock().clear();
+    c.nontrivial(tp + x_str(x.va));
+}
+
 int main(int argc, char** argv) {
+    init_xcases();
     for (int i = 0; i < 6; i++) { strcpy(strA[i], V_STRTXT[i]); strcpy(strB[i], V_STRTXT[i]); }
     for (int i = 0; i < 5; i++) { memcpy(memA[i], V_MEM[i].b, 4); memcpy(memB[i], V_MEM[i].b, 4); }
     for (int i = 0; i < 4; i++) { objA[i] = V_OBJ[i]; objB[i] = V_OBJ[i]; }
@@ -1014,6 +1087,7 @@ int main(int argc, char** argv) {
         { "single_deviation", 60000, 1200000, sec_single, false },
         { "random_sequences", 25000, 500000, sec_random, false },
         { "permuted_parameter_order", 12000, 250000, sec_permuted, false },
+        { "cross_type_integer_parameters", g_xcases.size(), g_xcases.size(), sec_crosstype, true },
     };
     return vf::harness_main(argc, argv, S, nullptr);
 }
